@@ -10,7 +10,10 @@ ssh.connect (fake process / scripted deliveries), ssnet.runonce (scripted
 per-iteration messages and injected exceptions), the helper's pipe and process
 object, client.os (fork/open/unlink/kill/dup2... intercepted), client.signal,
 sdnotify.socket.  The extracted Coq model (coq/Model/ClientLife.v) is run on the
-same environment scripts and the two event traces are compared."""
+same environment scripts and the two event traces are compared.
+FirewallClient.__init__ (which process becomes the helper) is run for real twice over: on scripted candidates (Popen
+replaced by an in-process end of the real socketpair: absent / exits at once with any status / prints anything / READY at
+any line), compared with Model/FwInit.v, and on real stand-in `sudo` programs in front of the real stub helper process."""
 import os
 import socket as real_socket
 import sys
@@ -22,13 +25,19 @@ RULE = ("environment scripts x injection points: mostly-valid client life cycles
         "pidfile open, every loop position, helper write/read/reply/returncode, every kind of answer to GO (STARTED, EOF, partial line, near misses, other "
         "protocol lines, garbage) x helper process running / exited 0 / exited non-zero, READY/STOPPING notification, pfile.close, "
         "wait, pidfile unlink) x every exception class (Fatal, OSError with several errnos, KeyboardInterrupt, SystemExit, "
-        "AssertionError, Exception, MemoryError, ValueError) x daemon on/off x auto-nets on/off, plus random scripts with "
+        "AssertionError, Exception, MemoryError, ValueError) x daemon on/off x auto-nets on/off, every exit status the handshake diagnosis "
+        "distinguishes x --python absent/name/absolute path, SIGTERM through the handler daemonize() installs, faults at the creation of the "
+        "notification socket; helper candidates: administrator or not x sudo/doas found or not x OpenBSD or not x per candidate (cannot be "
+        "started, exits with a status before/after speaking, junk lines, READY at line 1..103) x method x verbosity x --syslog x PYTHONPATH prefix, "
+        "and real stand-in sudo programs (lecture, refusal, running something else) in front of a real helper process; plus random scripts with "
         "several faults; a case is non-trivial when _main got past ssh.connect; distinct by script text")
 TRUSTED_BASE = [
     "modelled, not verified: CPython try/finally and exception replacement semantics, OSError errno->subclass mapping "
     "(PermissionError for EACCES/EPERM), Popen.wait returning a preset returncode, blocking raw read(n) returning 1..n bytes",
     "the fake objects of harness/props/c12.py stand for ssh (process + pipe), the helper (process + pipe), os.fork/open/"
     "unlink/kill, the systemd notification socket and ssnet.runonce's select-driven dispatch",
+    "helper candidates: the scripted candidate holds the other end of the REAL socketpair the constructor creates (lines, then end of output unless it is a verified helper); "
+    "which(), is_admin_user(), platform.platform() are table stubs; real stand-in `sudo` = a shell script that prints / refuses / execs its command",
     "closing the control channel makes the helper restore the firewall: that is property C04 (helper side, firewall.py:365-371), "
     "not re-proved here",
 ]
@@ -97,6 +106,8 @@ def canon_exc(e):
             return "Fatal.SshExited"
         if m.startswith("cleanup: "):
             return "Fatal.Cleanup"
+        if m.startswith("All attempts to run firewall client"):
+            return "Fatal.NoHelper"
         if "expected STARTED" in m:
             return "Fatal.NotStarted"
         if " returned " in m:
@@ -121,6 +132,8 @@ def script_line(s, cmd="RUN"):
             return "R%d" % (1 if a[1] else 0)
         if a[0] == "H":
             return "H%d:%s" % (a[1], a[2])
+        if a[0] == "S":
+            return "X:SystemExit"          # SIGTERM: the handler daemonize() installed (client.got_signal) calls sys.exit(1)
         return "X:%s" % a[1]
     st = s["start"]
     start = "%s:%s" % (st[0], st[1]) if st[0] in "WR" else "P:%d:%s" % (1 if st[1] else 0, o(st[2]))
@@ -174,6 +187,11 @@ def impl_run(s, real_helper=None):
             if ev != "MainEnd(Fatal.ServerDied)":      # the one way to give up after a correct announcement
                 trace.append("SyncOk")
         trace.append(ev)
+
+    extra = []
+
+    def rec_extra(ev):
+        extra.append(ev)
 
     def helper_said(line):
         # what the helper really put on the control channel, observed at the pipe (not: "start() returned")
@@ -249,6 +267,12 @@ def impl_run(s, real_helper=None):
                 elif a[2] == "a":
                     lines.append(b"bad/name,10.9.0.99")
                 mux.got_packet(0, CMD_HOST_LIST, b"\n".join(lines) + b"\n")
+            elif a[0] == "S":
+                h = st.get("sigterm")
+                if h is None:                      # (never generated: without a handler SIGTERM kills the process)
+                    raise make_exc("SystemExit")
+                rec_extra("SigtermHandlerRun")
+                h(15, None)
             else:
                 raise make_exc(a[1])
 
@@ -430,7 +454,8 @@ def impl_run(s, real_helper=None):
 
         @staticmethod
         def signal(signo, handler):
-            pass
+            if signo == 15:
+                st["sigterm"] = handler
 
     class NSock:
         def sendto(self, msg, addr):
@@ -447,12 +472,31 @@ def impl_run(s, real_helper=None):
                 raise make_exc(inj)
             return len(msg)
 
+    class NSockSilent:
+        def sendto(self, msg, addr):
+            return len(msg)
+
     class NSocketModule:
         AF_UNIX = real_socket.AF_UNIX
         SOCK_DGRAM = real_socket.SOCK_DGRAM
 
         @staticmethod
         def socket(family, kind):
+            if s.get("notify_at") == "socket":
+                # the fault is placed at the creation of the notification socket instead of at sendto()
+                msg = sys._getframe(1).f_locals.get("message", b"")
+                if b"READY=1" in msg:
+                    rec("NotifyReady")
+                    inj = s["ready"]
+                elif b"STOPPING=1" in msg:
+                    rec("NotifyStop")
+                    inj = s["stop"]
+                else:
+                    rec("Notify?")
+                    inj = None
+                if inj is not None:
+                    raise make_exc(inj)
+                return NSockSilent()
             return NSock()
 
     def fake_log(m):
@@ -476,7 +520,14 @@ def impl_run(s, real_helper=None):
     ssnet.runonce = fake_runonce
     client.log = helpers.log = fake_log
     client.FirewallClient = RealChannelFW if real_helper else StubFW
-    client.is_admin_user = lambda: True            # no sudo/doas prefix in front of the stub helper
+    saved_which = client.which
+    ie = s.get("init_env")
+    if real_helper and ie:
+        # not an administrator: the real constructor goes through its elevation candidates (stand-in programs)
+        client.is_admin_user = lambda: False
+        client.which = lambda name: ie["which"].get(name)
+    else:
+        client.is_admin_user = lambda: True        # no sudo/doas prefix in front of the stub helper
     client.MultiListener = Listener
     client.os = OsProxy()
     client.signal = Signal
@@ -486,7 +537,7 @@ def impl_run(s, real_helper=None):
     so, se = sys.stdout, sys.stderr
     try:
         try:
-            rv = client.main(None, ("127.0.0.1", 0), None, "remote", None, True, 32768, False, [],
+            rv = client.main(None, ("127.0.0.1", 0), None, "remote", s.get("python"), True, 32768, False, [],
                              "nat", None, False, s["auto_nets"], [(real_socket.AF_INET, "10.0.0.0", 8, 0, 0)], [],
                              s["daemon"], None, PIDFILE, None, None, True, False, None, "0x01")
             rec("Return(%r)" % (rv,))
@@ -501,12 +552,14 @@ def impl_run(s, real_helper=None):
             os.environ["NOTIFY_SOCKET"] = ns
         client._pidname = pidname
         client.is_admin_user = saved_admin
+        client.which = saved_which
         sys.stdout, sys.stderr = so, se
     if real_helper:
         return trace, st.get("helper_proc"), st.get("helper_pipe")
     if st["after_close_io"]:
         trace.append("WriteAfterClose")
     impl_run.iters_run = st["it"]
+    impl_run.extra = extra
     return trace
 
 
@@ -598,10 +651,20 @@ def gen_cases(ctx):
         for rv in (0, 1, 99, 255, -9):
             add("poll0", base_script(daemon=daemon, poll0=rv))
             add("poll0_badsync", base_script(daemon=daemon, poll0=rv, chunks=[b"\0\0SSHUTTLE0009"]))
+        # every exit status the diagnosis distinguishes (client.py:658-722), with and without --python
+        for rv in (97, 98, 99, 127, 255, 1):
+            for py in (None, "python3", "/opt/py/bin/python3"):
+                add("poll0_diagnosis", base_script(daemon=daemon, poll0=rv, python=py))
         # daemonize
         if daemon:
             for e in exns:
                 add("inj_daemonize", base_script(daemon=True, daemonize=e))
+            # SIGTERM while the daemon runs: through the handler daemonize() registered
+            for k in range(3):
+                for pos in range(len(good_loop[k]["acts"]) + 1):
+                    its = [dict(i) for i in good_loop]
+                    its[k] = {"dead": None, "acts": good_loop[k]["acts"][:pos] + [("S",)] + good_loop[k]["acts"][pos:]}
+                    add("sigterm", base_script(daemon=True, iters=its))
         # loop: ssh death at every iteration, exception of every class at every position
         for k in range(4):
             for rv in (0, 1, 255, -15):
@@ -630,6 +693,8 @@ def gen_cases(ctx):
             add("inj_start_write", base_script(daemon=daemon, start=("W", e)))
             add("inj_start_read", base_script(daemon=daemon, start=("R", e)))
             add("inj_ready", base_script(daemon=daemon, ready=e))
+            add("inj_ready_socket", base_script(daemon=daemon, ready=e, notify_at="socket"))
+            add("inj_stop_socket", base_script(daemon=daemon, stop=e, notify_at="socket"))
             add("inj_close", base_script(daemon=daemon, close=e))
             add("inj_wait", base_script(daemon=daemon, wait=("X", e)))
             add("inj_stop", base_script(daemon=daemon, stop=e))
@@ -700,8 +765,16 @@ HELPER_STUB = r"""
 import os, sys
 inp = os.fdopen(0, "rb", 0)
 out = os.fdopen(1, "wb", 0)
-out.write(b"READY nat\n")
 got = []
+with open(os.environ["VERIF_C12_MARKER"] + ".started", "ab") as f:
+    f.write(b"%d\n" % os.getpid())
+if os.environ.get("VERIF_C12_NOREADY") == "1":
+    # answers, but never announces READY: end of its output, then waits for the client to hang up
+    import socket
+    out.write(b"usage: something else\n")
+    socket.socket(fileno=os.dup(1)).shutdown(socket.SHUT_WR)
+else:
+    out.write(b"READY nat\n")
 while True:
     line = inp.readline()
     if not line:
@@ -711,9 +784,22 @@ while True:
         if os.environ.get("VERIF_C12_SILENT") == "1":
             break                       # leaves without confirming: the client reads EOF, exit status as scripted
         out.write(b"STARTED\n")
+with open(os.environ["VERIF_C12_MARKER"] + ".eof", "ab") as f:
+    f.write(b"%d\n" % os.getpid())
 with open(os.environ["VERIF_C12_MARKER"], "wb") as f:
     f.write(b"EOF-SEEN\n" + b"".join(got))
 sys.exit(int(os.environ.get("VERIF_C12_RC", "0")))
+"""
+
+
+SUDO_STUB = r"""#!/bin/sh
+# stand-in for sudo / doas (harness/props/c12.py): [-p PROMPT] command...
+case "$VERIF_C12_SUDO" in
+  fail) echo "Sorry, try again."; exit 1;;
+  lecture) echo "We trust you have received the usual lecture from the local System Administrator.";;
+esac
+[ "$1" = "-p" ] && shift 2
+exec "$@"
 """
 
 
@@ -744,10 +830,26 @@ def real_channel_check(ctx):
         ("helper_silent_rc0", base_script(start=("P", False, None), silent=True)),
         ("helper_silent_rc0_daemon", base_script(daemon=True, start=("P", False, None), silent=True)),
     ]
+    # not an administrator: the real constructor tries `sudo ...`, `doas ...`, the bare command (stand-in programs)
+    sudo = os.path.join(work, "bin", "sudo")
+    os.makedirs(os.path.dirname(sudo), exist_ok=True)
+    with open(sudo, "w") as f:
+        f.write(SUDO_STUB)
+    os.chmod(sudo, 0o755)
+    absent = os.path.join(work, "bin", "doas-not-installed")
+    env_na = {"which": {"sudo": sudo, "doas": absent}}
+    R_ = ("R", False)
+    scripts += [
+        ("init_sudo_lecture_then_ready", base_script(init_env=env_na, sudo="lecture", iters=[{"dead": None, "acts": [R_]}])),
+        ("init_sudo_refuses_doas_absent_direct_ready", base_script(init_env=env_na, sudo="fail", iters=[{"dead": None, "acts": [R_]}])),
+        ("init_nobody_announces_ready", base_script(init_env=env_na, sudo="fail", noready=True)),
+        ("init_sudo_runs_something_else", base_script(init_env=env_na, sudo="ok", noready=True)),
+    ]
     if not ctx.quick():
         for e in EXN_ALL:
             scripts.append(("inj_" + e, base_script(iters=[{"dead": None, "acts": [R]}, {"dead": None, "acts": [("X", e)]}])))
-    old_env = {k: os.environ.get(k) for k in ("VERIF_C12_MARKER", "VERIF_C12_RC", "VERIF_C12_SILENT")}
+    old_env = {k: os.environ.get(k) for k in ("VERIF_C12_MARKER", "VERIF_C12_RC", "VERIF_C12_SILENT", "VERIF_C12_SUDO",
+                                              "VERIF_C12_NOREADY")}
     try:
         lines = [script_line(s) for _, s in scripts]
         model = ctx.run_driver(lines)
@@ -756,11 +858,27 @@ def real_channel_check(ctx):
             os.environ["VERIF_C12_MARKER"] = marker
             os.environ["VERIF_C12_RC"] = str(s["wait"][1])
             os.environ["VERIF_C12_SILENT"] = "1" if s.get("silent") else "0"
+            os.environ["VERIF_C12_SUDO"] = s.get("sudo") or "ok"
+            os.environ["VERIF_C12_NOREADY"] = "1" if s.get("noready") else "0"
             tr, proc, pipe = impl_run(s, real_helper=stub)
             t0 = time.time()
             while not os.path.exists(marker) and time.time() - t0 < 3:
                 time.sleep(0.01)
             time.sleep(0.02)
+
+            def pids(suffix):
+                return sorted(open(marker + suffix, "rb").read().split()) if os.path.exists(marker + suffix) else []
+            while pids(".eof") != pids(".started") and time.time() - t0 < 3:
+                time.sleep(0.01)
+            started, hung_up = pids(".started"), pids(".eof")
+            if s.get("init_env"):
+                ctx.count("real_channel_helper_candidates_started", len(started))
+                while True:                            # abandoned candidates are nobody's children any more: reap them
+                    try:
+                        if os.waitpid(-1, os.WNOHANG)[0] == 0:
+                            break
+                    except OSError:
+                        break
             seen = open(marker, "rb").read() if os.path.exists(marker) else None
             if proc is not None:                       # never leave the child behind, whatever the client did
                 if seen is None:
@@ -783,8 +901,15 @@ def real_channel_check(ctx):
                                            "helper_received": None if seen is None else seen.decode("latin1")[:200]}
                      if n < 2 else None)
             fails = oracle(tr)
+            if s.get("noready"):
+                # no candidate ever announced READY: no session; the process that did answer must still see the hang-up
+                m = "Exit(Fatal.NoHelper)"
+                if "MainEnter" in tr or "FwStart" in tr or (seen is not None and b"ROUTES\n" in seen):
+                    fails.append("the client went on with a helper process that never announced READY")
             if seen is None:
                 fails.append("client.main was left but the helper process never saw EOF on its control channel")
+            elif started != hung_up:
+                fails.append("client.main was left but a started helper candidate never saw EOF on its control channel")
             if seen is not None and (b"ROUTES\n" in seen) != ("FwStart" in tr):
                 fails.append("helper received a rule set in a run without (or missed one in a run with) FwStart")
             for f in fails:
@@ -807,8 +932,216 @@ def real_channel_check(ctx):
             pass
 
 
+# ----------------------------------------------------------------------
+# FirewallClient.__init__: which process becomes "the helper" (scripted candidates, the REAL constructor)
+
+INIT_METHODS = ["nat", "nft", "tproxy", "pf", "ipfw"]
+JUNK = [b"We trust you have received the usual lecture\n", b"\n", b"ready nat\n", b" READY nat\n", b"READ\n", b"Password: \n",
+        b"\xff\xfe\n", b"STARTED\n"]
+
+
+def cand_menu(rng):
+    """one candidate's behaviour: spawn?, lines on the channel (then end of file), poll() after the first line"""
+    m = rng.choice(INIT_METHODS)
+    ready = b"READY %s\n" % m.encode()
+    k = rng.random()
+    if k < 0.18:
+        return {"spawn": False, "lines": [], "rv": None}
+    if k < 0.36:
+        return {"spawn": True, "lines": rng.choice([[], [b"Sorry, try again.\n"], [ready]]), "rv": rng.choice([1, 1, 2, 127, -9])}
+    if k < 0.46:
+        return {"spawn": True, "lines": rng.choice([[], [b"usage: doas\n"]]), "rv": rng.choice([0, None])}
+    if k < 0.56:
+        return {"spawn": True, "lines": [rng.choice(JUNK) for _ in range(rng.randint(1, 4))], "rv": rng.choice([None, None, 0])}
+    if k < 0.66:
+        n = rng.choice([99, 100, 100, 101, 102])             # the reader looks at 101 lines
+        return {"spawn": True, "lines": [b"lecture %d\n" % i for i in range(n)] + [ready], "rv": None}
+    if k < 0.8:
+        return {"spawn": True, "lines": [rng.choice(JUNK) for _ in range(rng.randint(1, 3))] + [ready], "rv": rng.choice([None, None, 0])}
+    return {"spawn": True, "lines": [ready], "rv": rng.choice([None, None, None, 0])}
+
+
+def cand_viable(c):
+    """spec side, independent of the model: could be started, no failure status, READY among the first 101 lines"""
+    return c["spawn"] and c["rv"] in (None, 0) and any(l[:5] == b"READY" for l in c["lines"][:101])
+
+
+def init_run(case):
+    """the real FirewallClient.__init__ over scripted candidates -> observation dict"""
+    import types
+    import subprocess
+    import sshuttle.client as client
+    import sshuttle.helpers as helpers
+    import sshuttle.ssyslog as ssyslog
+    attempts, ends = [], {}
+    SUDO, DOAS = "/opt/verif-c12/bin/sudo", "/opt/verif-c12/bin/doas"
+
+    def kind_of(argv):
+        return "sudo" if argv[0] in (SUDO, "sudo") else "doas" if argv[0] in (DOAS, "doas") else "direct"
+
+    class FakeProc:
+        pid = 4343
+        returncode = None
+
+        def __init__(self, rv):
+            self.rv = rv
+
+        def poll(self):
+            return self.rv
+
+        def wait(self):
+            return self.rv or 0
+
+    def popen(argv, stdout=None, stdin=None, env=None, preexec_fn=None, **kw):
+        k = kind_of(argv)
+        attempts.append((k, list(argv)))
+        c = case["cands"][k]
+        if not c["spawn"]:
+            raise FileNotFoundError(2, "No such file or directory: %r" % argv[0])
+        end = stdout.dup()                         # the candidate's end of the control channel
+        if c["lines"]:
+            end.sendall(b"".join(c["lines"]))
+        if not cand_viable(c):
+            end.shutdown(real_socket.SHUT_WR)      # its output ends (it exited or closed stdout)
+        ends[k] = end
+        return FakeProc(c["rv"])
+
+    class PlatformShim:
+        def __getattr__(self, n):
+            import platform
+            return getattr(platform, n)
+
+        @staticmethod
+        def platform():
+            return "OpenBSD-7.4-amd64-64bit" if case["openbsd"] else "Linux-6.1.0-x86_64-with-glibc2.36"
+    saved = (client.ssubprocess, client.which, client.is_admin_user, client.platform, client.debug1, helpers.verbose,
+             ssyslog._p, sys.argv[0])
+    obs = {"attempts": attempts}
+    try:
+        client.ssubprocess = types.SimpleNamespace(Popen=popen, PIPE=subprocess.PIPE)
+        client.which = lambda name: {"sudo": SUDO if case["sudo_found"] else None, "doas": DOAS if case["doas_found"] else None}.get(name)
+        client.is_admin_user = lambda: case["admin"]
+        client.platform = PlatformShim()
+        client.debug1 = lambda m: None
+        helpers.verbose = case["verbose"]
+        ssyslog._p = object() if case["syslog"] else None
+        sys.argv[0] = case["argv0"]
+        fw = None
+        try:
+            fw = client.FirewallClient(case["method"], case["sudo_pythonpath"])
+            obs["outcome"] = "CHOSEN"
+            obs["chosen"] = kind_of(fw.argv)
+            obs["method"] = fw.method.name
+        except BaseException as e:                  # noqa: B902 — the class is the observation
+            obs["outcome"] = "Exit(%s)" % canon_exc(e)
+    finally:
+        (client.ssubprocess, client.which, client.is_admin_user, client.platform, client.debug1, helpers.verbose,
+         ssyslog._p, sys.argv[0]) = saved
+    # which candidates still have an open control channel on the client's side?
+    open_ends = []
+    for k, end in ends.items():
+        end.setblocking(False)
+        try:
+            while True:
+                d = end.recv(4096)
+                if not d:
+                    break
+        except BlockingIOError:
+            open_ends.append(k)
+        except OSError:
+            pass
+    obs["open_channels"] = sorted(open_ends)
+    if fw is not None:
+        try:
+            fw.pfile.close()
+        except Exception:      # noqa: BLE001
+            pass
+    for end in ends.values():
+        end.close()
+    return obs
+
+
+def init_expected_argv(case, kind):
+    import sshuttle.client as client
+    base = ([sys.executable, case["argv0"]] if case["argv0"].endswith(".py") else [case["argv0"]]) + ["-v"] * case["verbose"] + \
+        ["--method", case["method"], "--firewall"] + (["--syslog"] if case["syslog"] else [])
+    if kind == "direct":
+        return base
+    pp = ["/usr/bin/env", "PYTHONPATH=%s" % os.path.dirname(os.path.dirname(client.__file__))] if case["sudo_pythonpath"] else []
+    if kind == "sudo":
+        return ["/opt/verif-c12/bin/sudo" if case["sudo_found"] else "sudo", "-p", "[local sudo] Password: "] + pp + base
+    return ["/opt/verif-c12/bin/doas" if case["doas_found"] else "doas"] + pp + base
+
+
+def init_dimension(ctx):
+    rng = ctx.rng
+    cases = []
+    for i in range(500 if ctx.quick() else 12000):
+        case = {"admin": rng.random() < 0.2, "doas_found": rng.random() < 0.5, "sudo_found": rng.random() < 0.7,
+                "openbsd": rng.random() < 0.2, "sudo_pythonpath": rng.random() < 0.7, "verbose": rng.choice([0, 0, 1, 2, 3]),
+                "syslog": rng.random() < 0.2, "argv0": rng.choice(["/usr/local/bin/sshuttle", "./run.py", "sshuttle"]),
+                "method": rng.choice(INIT_METHODS + ["auto"]),
+                "cands": {"sudo": cand_menu(rng), "doas": cand_menu(rng), "direct": cand_menu(rng)}}
+        if i % 7 == 0:
+            for k in case["cands"]:                 # nobody answers
+                while cand_viable(case["cands"][k]):
+                    case["cands"][k] = cand_menu(rng)
+        cases.append(case)
+    b = lambda x: "1" if x else "0"      # noqa: E731
+
+    def cand_tok(c):
+        return "%s:%s:%s" % (b(c["spawn"]), "-" if c["rv"] is None else c["rv"], ",".join(hx(l) for l in c["lines"]) or "_")
+    # the model is asked twice: for the order (a function of the environment) and, with the candidates in that order, for the choice
+    orders = ctx.run_driver(["INIT %s %s %s %s -" % (b(c["admin"]), b(c["doas_found"]), b(c["sudo_found"]), b(c["openbsd"])) for c in cases])
+    lines = []
+    for c, o in zip(cases, orders):
+        order = o.split(" ")[1].split(",")
+        c["order"] = order
+        lines.append("INIT %s %s %s %s %s" % (b(c["admin"]), b(c["doas_found"]), b(c["sudo_found"]), b(c["openbsd"]),
+                                            ";".join(cand_tok(c["cands"][k]) for k in order)))
+    model = ctx.run_driver(lines)
+    for c, ln, m in zip(cases, lines, model):
+        obs = init_run(c)
+        order = c["order"]
+        tried = [k for k, _ in obs["attempts"]]
+        mf = m.split(" ")
+        if mf[2] == "CHOSEN":
+            k = int(mf[3])
+            want = {"tried": order[:k + 1], "outcome": "CHOSEN", "chosen": order[k], "method": bytes.fromhex(mf[4]).decode()}
+        else:
+            want = {"tried": order, "outcome": "Exit(Fatal.NoHelper)", "chosen": None, "method": None}
+        have = {"tried": tried, "outcome": obs["outcome"], "chosen": obs.get("chosen"), "method": obs.get("method")}
+        desc = {"admin": c["admin"], "doas_found": c["doas_found"], "sudo_found": c["sudo_found"], "openbsd": c["openbsd"],
+                "cands": dict((k, {"spawn": v["spawn"], "rv": v["rv"], "lines": [l.decode("latin-1") for l in v["lines"][:3]] +
+                                   (["... %d lines" % len(v["lines"])] if len(v["lines"]) > 3 else [])}) for k, v in c["cands"].items())}
+        ctx.case(("init", ln, c["method"], c["verbose"], c["syslog"], c["argv0"], c["sudo_pythonpath"]), nontrivial=True,
+                 sample={"kind": "helper candidates", "case": desc, "tried": tried, "outcome": obs["outcome"], "chosen": obs.get("chosen")}
+                 if len(ctx.samples) < 2 else None)
+        ctx.count("init_" + ("chosen_" + obs["chosen"] if obs.get("chosen") else obs["outcome"].replace("(", "_").replace(")", "")))
+        ctx.count("init_order_" + "_".join(order))
+        rp = {"kind": "init", "init_case": dict(c, cands=dict((k, dict(v, lines=[l.hex() for l in v["lines"]])) for k, v in c["cands"].items())),
+              "observed": have, "open_channels": obs["open_channels"]}
+        fails = []
+        if obs.get("chosen") is not None and not cand_viable(c["cands"][obs["chosen"]]):
+            fails.append("the client goes on with a helper process that could not be verified (never announced READY, or had already failed)")
+        if obs["outcome"] != "CHOSEN" and not obs["outcome"].startswith("Exit(Fatal.") and not any(cand_viable(v) for v in c["cands"].values()):
+            fails.append("no helper candidate answered, but start-up did not stop with a fatal message")
+        leftover = [k for k in obs["open_channels"] if k != obs.get("chosen")]
+        if leftover:
+            fails.append("the control channel to an abandoned helper candidate was left open")
+        for f in fails:
+            ctx.violation(f, rp)
+        if have != want:
+            ctx.disagree("FirewallClient.__init__ (helper candidates)", ln, have, want, holds=(not fails))
+        for k, argv in obs["attempts"]:
+            if argv != init_expected_argv(c, k):
+                ctx.disagree("helper command line (%s)" % k, desc, argv, init_expected_argv(c, k), holds=(not fails))
+                break
+
+
 def correspondence(ctx):
     real_channel_check(ctx)
+    init_dimension(ctx)
     cases = gen_cases(ctx)
     lines = [script_line(s) for _, s in cases]
     model = ctx.run_driver(lines)
@@ -817,7 +1150,7 @@ def correspondence(ctx):
     for (kind, s), ln, m, v in zip(cases, lines, model, verdict):
         # the model's script line carries "helper answered STARTED yes/no"; the exact bytes of another answer are
         # an input of the real code only (the model treats every other answer like no answer, as the code does)
-        key = (ln, s.get("reply"))
+        key = (ln, s.get("reply"), s.get("python"), s.get("notify_at"), any(a[0] == "S" for it in s["iters"] for a in it["acts"]))
         if key in seen:
             continue
         seen.add(key)
@@ -825,19 +1158,23 @@ def correspondence(ctx):
         ctx.count("daemon" if s["daemon"] else "foreground")
         tr = impl_run(s)
         i = " ".join(model_view(tr))
-        ctx.case(key if s.get("reply") is not None else ln, nontrivial=("SyncOk" in tr or len(tr) > 5),
+        ctx.case(key if key[1:] != (None, None, None, False) else ln, nontrivial=("SyncOk" in tr or len(tr) > 5),
                  sample={"kind": kind, "script": ln, "trace": i} if kind in ("valid", "inj_loop", "ssh_dead", "random") and
                  ctx.rng.random() < 0.02 else None)
-        for e in tr:
+        for e in tr + impl_run.extra:
             ctx.count("ev_" + e.split("(")[0])
         fails = oracle(tr, s, v.split(" ")[0] == "1", impl_run.iters_run)
         for f in sorted(set(fails)):
             rp = {"script": ln, "trace": tr, "handshake_phase_ok": v.split(" ")[0]}
             if s.get("reply") is not None:
                 rp["helper_reply_hex"] = hx(s["reply"])
+            for k2 in ("python", "notify_at"):
+                if s.get(k2) is not None:
+                    rp[k2] = s[k2]
             ctx.violation(f, rp)
         if i != m:
-            ctx.disagree("client life-cycle trace", ln, i, m, holds=(not fails))
+            ctx.disagree("client life-cycle trace", ln if key[1:] == (None, None, None, False) else
+                         {"script": ln, "python": s.get("python"), "notify_at": s.get("notify_at"), "sigterm": key[4]}, i, m, holds=(not fails))
     ctx.programs = len(seen)
     ctx.extra["exception_classes"] = EXN_ALL
 
@@ -876,6 +1213,20 @@ def parse_line(ln):
 def replay(ctx, rp):
     """re-run a stored failing input against the real code; returns True if it still fails"""
     r = rp.get("replay", {})
+    if r.get("kind") == "init":
+        c = r["init_case"]
+        c["cands"] = dict((k, dict(v, lines=[bytes.fromhex(l) for l in v["lines"]])) for k, v in c["cands"].items())
+        obs = init_run(c)
+        bad = []
+        if obs.get("chosen") is not None and not cand_viable(c["cands"][obs["chosen"]]):
+            bad.append("unverified helper chosen")
+        if obs["outcome"] != "CHOSEN" and not obs["outcome"].startswith("Exit(Fatal.") and not any(cand_viable(v) for v in c["cands"].values()):
+            bad.append("no fatal stop")
+        if [k for k in obs["open_channels"] if k != obs.get("chosen")]:
+            bad.append("abandoned candidate's channel left open")
+        print("tried:", [k for k, _ in obs["attempts"]], "outcome:", obs["outcome"], obs.get("chosen"), "open channels:", obs["open_channels"])
+        print("property failures:", bad)
+        return bool(bad)
     if "script" not in r:
         print("nothing replayable in", rp.get("kind"))
         return False
@@ -883,6 +1234,9 @@ def replay(ctx, rp):
     if r.get("helper_reply_hex") is not None:
         s["reply"] = b"" if r["helper_reply_hex"] == "-" else bytes.fromhex(r["helper_reply_hex"])
         print("helper's answer to GO: %r, helper poll() at that moment: %r" % (s["reply"], s["start"][2] if s["start"][0] == "P" else None))
+    for k2 in ("python", "notify_at"):
+        if r.get(k2) is not None:
+            s[k2] = r[k2]
     if r.get("real_helper"):
         print("(stored from the real-helper-process run; replayed with the scripted helper)")
     tr = impl_run(s)
